@@ -26,6 +26,9 @@ type History struct {
 	IgnoreCircular     bool   `json:"ignore_circular,omitempty"`
 	IgnoreNotSupported bool   `json:"ignore_not_supported,omitempty"`
 	Origin             string `json:"origin,omitempty"`
+	// Mode: how loads travel to the model: "text" (raw text, default) or "stmts" (statement trees +
+	// Go's verdict on parser and builder as a flag)
+	Mode string `json:"mode,omitempty"`
 }
 
 func (h History) key() string {
